@@ -15,7 +15,7 @@ import (
 )
 
 func propHistories(t *testing.T, p proto) {
-	vstat.Checks(6000, 300000)
+	vstat.Checks(10000, 300000)
 	rapid.Check(t, func(rt *rapid.T) {
 		c, evs, shape := genHistory(rt, p)
 		res := run(t, c, evs, runOpts{tail: true})
@@ -38,7 +38,7 @@ func propHistories(t *testing.T, p proto) {
 			}
 			switch x.K {
 			case kRCA, kRCN, kRCJ:
-				cls = append(cls, fmt.Sprintf("ev:%s-%s", x.K, [...]string{"match", "stale", "raw"}[x.IDMode]))
+				cls = append(cls, fmt.Sprintf("ev:%s-%s", x.K, idModeName[x.IDMode]))
 			case kRCR:
 				if x.Tail != tailNone || x.Hdr != hdrExact {
 					cls = append(cls, "ev:RCR-malformed")
